@@ -66,7 +66,8 @@ func runCheck(r *mon.Run) {
 	r.SetLevel("fault_enumeration")
 	r.SetRule("case = one stream history (scripted real HttpServer stream, client call script, fault plan round-trip-index -> fault) driven through the real HttpClient; " +
 		"exhaustive sub-space = every short shape (X1-X4 exchange, P1-P6 producer) x every round-trip position of its fault-free run x every fault of the catalogue " +
-		"(parameter-free classes, plus cut/flip/body-error offsets: quick = cuts at every message boundary -1/0/+1/+8 and head/tail offsets, flips at every 89th flip-safe offset; thorough = every byte offset) " +
+		"(thorough: every variant of every kind, a cut at every byte offset and a flip at every second flip-safe offset at every position; quick: the full variant product at three dense positions - an exchange turn, a producer continuation, an init with header stream - " +
+		"and one variant per kind, rotated, plus cuts at and just before every message boundary at every other position) " +
 		"in the in-process transport, plus every wire-level fault (connection closed before/after the server ran with zero response bytes, cut after k raw bytes, EOF-delimited cut, chunked) " +
 		"x every position on a real listener with keep-alive connections; random longer multi-fault histories are counted separately (coverage.random_*); " +
 		"distinct = distinct (shape, per call: op, fault class, accepted?) signatures")
@@ -90,13 +91,16 @@ func runCheck(r *mon.Run) {
 	defer done()
 
 	a := &agg{classes: map[string]int{}, counters: map[string]int{}, bySpace: map[string]int{}}
-	workers := runtime.GOMAXPROCS(0)
-	if workers > 16 {
-		workers = 16
+	// Under -race, idle Ps cost real CPU (GC workers, TSan): cap the
+	// parallelism explicitly instead of inheriting the machine's core count.
+	workers := 12
+	if !r.Thorough() {
+		workers = 4
 	}
-	if !r.Thorough() && workers > 8 {
-		workers = 8
+	if n := runtime.NumCPU(); workers > n {
+		workers = n
 	}
+	runtime.GOMAXPROCS(workers + 1)
 	var seq int
 	var sampleMu sync.Mutex
 	samples := 0
@@ -177,80 +181,140 @@ func runCheck(r *mon.Run) {
 	}
 
 	// ---- exhaustive sub-space
+	// Every fault KIND strikes at every round-trip position of every short
+	// shape. Thorough: every VARIANT of every kind and every byte offset at
+	// every position. Quick: the full variant product at the dense positions
+	// (an exchange turn, a producer continuation, an init with a header
+	// stream), elsewhere one variant per kind, rotated so that every variant
+	// is used at several positions.
 	cat := faultCatalogue()
-	var space []History
-	positions := 0
-	offsets := 0
-	flips := 0
+	var kinds []string
+	byKind := map[string][]Fault{}
+	for _, f := range cat {
+		if _, ok := byKind[f.Kind]; !ok {
+			kinds = append(kinds, f.Kind)
+		}
+		byKind[f.Kind] = append(byKind[f.Kind], f)
+	}
+	dense := map[string]bool{"X1:2": true, "X2:0": true, "P2:1": true}
+	var space, lspace []History
+	positions, offsets, flips, g := 0, 0, 0, 0
 	for si, sh := range shapes {
 		for p, ti := range info[si] {
 			positions++
-			for fi, f := range cat {
-				space = append(space, mk(sh, "inproc", (fi+p)%2, map[int]Fault{p: f}))
-				if f.Kind == "size" { // both limit configurations
-					space = append(space, mk(sh, "inproc", (fi+p+1)%2, map[int]Fault{p: f}))
+			g++
+			full := r.Thorough() || dense[fmt.Sprintf("%s:%d", sh.Shape, p)]
+			add := func(lim int, f Fault) { space = append(space, mk(sh, "inproc", lim, map[int]Fault{p: f})) }
+			for ki, kind := range kinds {
+				vs := byKind[kind]
+				if (kind == "header-drift" && !(ti.Op == "init" && sh.hasHeader())) || (kind == "missing-call-token" && ti.Op != "init") {
+					continue // cannot apply here (would be a no-op)
+				}
+				if !full {
+					vs = []Fault{vs[(g+ki)%len(vs)]}
+				}
+				for vi, f := range vs {
+					add((g+vi)%2, f)
+					if f.Kind == "size" && full { // both limit configurations
+						add((g+vi+1)%2, f)
+					}
 				}
 			}
-			stride := 0
-			ks := positionsFor(ti.Len, ti.Bounds, r.Thorough(), stride)
+			// cuts
+			var ks []int
+			switch {
+			case r.Thorough():
+				ks = positionsFor(ti.Len, ti.Bounds, true, 0)
+			case full:
+				ks = positionsFor(ti.Len, ti.Bounds, false, 0)
+			default:
+				ks = []int{0}
+				for _, b := range ti.Bounds {
+					ks = append(ks, b-1)
+					if b < ti.Len {
+						ks = append(ks, b)
+					}
+				}
+			}
 			offsets += len(ks)
 			for _, k := range ks {
-				space = append(space, mk(sh, "inproc", 0, map[int]Fault{p: {Kind: "truncate", K: k}}))
+				add(0, Fault{Kind: "truncate", K: k})
 			}
-			fstep := 1
-			if !r.Thorough() {
-				fstep = 89
+			// flips (K indexes the flip-safe offsets)
+			switch {
+			case r.Thorough():
+				for k := 0; k < ti.Safe; k++ {
+					if k%2 == 0 {
+						flips++
+						add(0, Fault{Kind: "flip", Var: "all", K: k})
+					}
+					if k%5 == 0 {
+						flips++
+						add(0, Fault{Kind: "flip", Var: []string{"bit0", "bit7"}[(k/5)%2], K: k})
+					}
+				}
+			case full:
+				for k := 0; k < ti.Safe; k += 61 {
+					flips++
+					add(0, Fault{Kind: "flip", Var: "all", K: k})
+				}
+			case ti.Safe > 0:
+				flips += 2
+				add(0, Fault{Kind: "flip", Var: "all", K: (g * 131) % ti.Safe})
+				add(0, Fault{Kind: "flip", Var: "bit7", K: (g * 577) % ti.Safe})
 			}
-			for k := 0; k < ti.Safe; k += fstep {
-				flips++
-				space = append(space, mk(sh, "inproc", 0, map[int]Fault{p: {Kind: "flip", Var: "all", K: k}}))
-				if r.Thorough() {
-					space = append(space, mk(sh, "inproc", 0, map[int]Fault{p: {Kind: "flip", Var: "bit0", K: k}}))
+			// connection dies while the body is being read
+			bk := []int{0, 1, ti.RawLen / 2, ti.RawLen - 1}
+			if !full {
+				bk = bk[g%4 : g%4+1]
+			}
+			for _, k := range bk {
+				if k >= 0 && k < ti.RawLen {
+					add(0, Fault{Kind: "body-err", K: k})
 				}
 			}
-			for _, k := range []int{0, 1, ti.RawLen / 2, ti.RawLen - 1} {
-				if k >= 0 && k < ti.RawLen {
-					space = append(space, mk(sh, "inproc", 0, map[int]Fault{p: {Kind: "body-err", K: k}}))
+
+			// wire-level faults on a real listener (keep-alive connections)
+			ladd := func(f Fault) { lspace = append(lspace, mk(sh, "listener", 0, map[int]Fault{p: f})) }
+			ladd(Fault{Kind: "conn-close-before"})
+			ladd(Fault{Kind: "conn-close-after"})
+			ladd(Fault{Kind: "chunked-pass"})
+			ladd(Fault{Kind: "eof-delimited", K: ti.Len})
+			raw := []int{0, 1, 9, 17, 40, 90}
+			body := []int{0, 1, ti.Len / 2, ti.Len - 1}
+			var eof []int
+			if full {
+				eof = positionsFor(ti.Len, ti.Bounds, false, 0)
+			} else {
+				raw, body = raw[g%6:g%6+1], body[g%4:g%4+1]
+				eof = []int{ti.Len / 2}
+				if len(ti.Bounds) > 1 {
+					eof = append(eof, ti.Bounds[g%(len(ti.Bounds)-1)])
+				}
+			}
+			for _, k := range raw {
+				ladd(Fault{Kind: "conn-cut", Var: "raw", K: k})
+			}
+			for _, k := range body {
+				ladd(Fault{Kind: "conn-cut", Var: "body", K: k})
+			}
+			for _, k := range eof {
+				if k < ti.Len {
+					ladd(Fault{Kind: "eof-delimited", K: k})
 				}
 			}
 		}
 	}
 	runAll("exhaustive-inproc", space)
 	nIn := len(space)
-
-	// ---- wire-level faults on a real listener (keep-alive connections)
-	space = space[:0]
-	for si, sh := range shapes {
-		for p, ti := range info[si] {
-			fs := []Fault{{Kind: "conn-close-before"}, {Kind: "conn-close-after"}, {Kind: "chunked-pass"}, {Kind: "eof-delimited", K: ti.Len}}
-			for _, k := range []int{0, 1, 9, 17, 40, 90} {
-				fs = append(fs, Fault{Kind: "conn-cut", Var: "raw", K: k})
-			}
-			for _, k := range []int{0, 1, ti.Len / 2, ti.Len - 1} {
-				fs = append(fs, Fault{Kind: "conn-cut", Var: "body", K: k})
-			}
-			ks := positionsFor(ti.Len, ti.Bounds, false, 0)
-			if !r.Thorough() {
-				ks = append([]int{0, 1, ti.Len / 2}, ti.Bounds...)
-			}
-			for _, k := range ks {
-				if k < ti.Len {
-					fs = append(fs, Fault{Kind: "eof-delimited", K: k})
-				}
-			}
-			for _, f := range fs {
-				space = append(space, mk(sh, "listener", 0, map[int]Fault{p: f}))
-			}
-		}
-	}
-	runAll("exhaustive-listener", space)
-	nLis := len(space)
+	runAll("exhaustive-listener", lspace)
+	nLis := len(lspace)
 	r.SetExhaustive(true)
 
 	// ---- random longer histories (reported separately)
-	nRand := r.N(600, 60000)
-	nRandLis := r.N(100, 4000)
-	space = space[:0]
+	nRand := r.N(300, 20000)
+	nRandLis := r.N(60, 2000)
+	space = nil
 	for i := 0; i < nRand+nRandLis; i++ {
 		rng := r.Rand(uint64(i))
 		h := randomHistory(rng, cat, i >= nRand)
